@@ -41,6 +41,60 @@ type pathState struct {
 	lenient int
 	inconcAt string
 	decided map[*Term]bool // conditions already asserted on this path (true) or refuted (false)
+	fless   map[*Term][]*Term // strict float order asserted on this path: a -> every b with (a < b) in pc
+}
+
+// flessReach: is a < b implied by the asserted float order facts (transitive closure; an asserted a < b
+// also says neither is NaN, so IEEE '<' is transitive along the chain)?
+func (p *pathState) flessReach(a, b *Term) bool {
+	if len(p.fless) == 0 {
+		return false
+	}
+	seen := map[*Term]bool{a: true}
+	stack := []*Term{a}
+	for len(stack) > 0 {
+		x := stack[len(stack)-1]
+		stack = stack[:len(stack)-1]
+		for _, y := range p.fless[x] {
+			if y == b {
+				return true
+			}
+			if !seen[y] {
+				seen[y] = true
+				stack = append(stack, y)
+			}
+		}
+	}
+	return false
+}
+
+// floatOrderDecides: a float comparison whose outcome follows from the asserted order facts
+func (p *pathState) floatOrderDecides(c *Term) (bool, bool) {
+	switch c.Op {
+	case OFLt:
+		if p.flessReach(c.A[0], c.A[1]) {
+			return true, true
+		}
+		if p.flessReach(c.A[1], c.A[0]) {
+			return false, true
+		}
+	case OFLe:
+		if p.flessReach(c.A[0], c.A[1]) {
+			return true, true
+		}
+		if p.flessReach(c.A[1], c.A[0]) {
+			return false, true
+		}
+	case OFEq:
+		if p.flessReach(c.A[0], c.A[1]) || p.flessReach(c.A[1], c.A[0]) {
+			return false, true
+		}
+	case ONot:
+		if v, ok := p.floatOrderDecides(c.A[0]); ok {
+			return !v, true
+		}
+	}
+	return false, false
 }
 
 func (p *pathState) setDecided(c *Term, v bool) {
@@ -62,6 +116,20 @@ func (in *Interp) assert(t *Term) {
 	in.path.decided[t] = true
 	if t.Op == ONot {
 		in.path.decided[t.A[0]] = false
+	}
+	in.path.noteFloatOrder(t)
+}
+
+func (p *pathState) noteFloatOrder(t *Term) {
+	switch t.Op {
+	case OFLt:
+		if p.fless == nil {
+			p.fless = map[*Term][]*Term{}
+		}
+		p.fless[t.A[0]] = append(p.fless[t.A[0]], t.A[1])
+	case OAnd:
+		p.noteFloatOrder(t.A[0])
+		p.noteFloatOrder(t.A[1])
 	}
 }
 
@@ -96,6 +164,9 @@ func (in *Interp) branch(c *Term, why string) bool {
 	}
 	p := in.path
 	if v, ok := p.decided[c]; ok {
+		return v
+	}
+	if v, ok := p.floatOrderDecides(c); ok {
 		return v
 	}
 	i := len(p.taken)
